@@ -398,7 +398,8 @@ def live_auth(u, h, now, timeout):
 
 def recognisers_ref(state, h, now, timeout):
     """cache-free: who recognises h (own mask by the reference matcher, or live login)"""
-    return [i for i, u in state[0] if live_auth(u, h, now, timeout) or any(ref_match(m, h) for m in u[1])]
+    # "a 'secure' account additionally requires a matching registered mask": its logins alone do not count
+    return [i for i, u in state[0] if (live_auth(u, h, now, timeout) and not u[3]) or any(ref_match(m, h) for m in u[1])]
 
 
 def run_history(ctx, mods, hist, model=True, kind='history'):
@@ -572,21 +573,9 @@ def _overlapping_globs(inp):
 
 
 # F5 (expired_login_cached) and F22 (login_vs_mask) are repaired: their classes are gone, their witnesses head the corpus
-def _secure_stale_login(inp):
-    """F25: a secure account is recognised through a login from a hostmask none of its masks matches: the secure rule is only
-    applied by addAuth, so logins made before the flag was turned on (user set secure, setUser) or before the matching mask was
-    removed (hostmask remove, setUser) keep being honoured by checkHostmask"""
-    return inp.get('kind') == 'secure-without-mask'
-
-
-def _secure_not_undone(inp):
-    """F26: user set secure refused by users.setUser (DuplicateHostmask) keeps the new flag on the live account (the F23 defect
-    in a command the F23 repair did not touch)"""
-    return inp.get('kind') == 'refused-with-trace' and inp.get('via') == 'setuser' and inp.get('cmd') == 'secure'
-
-
 # F23 (edit_not_undone) and F24 (add_owned_mask) are repaired as well; their witnesses are in the corpus too
-CLASSES = {'overlapping_globs': _overlapping_globs, 'secure_stale_login': _secure_stale_login, 'secure_not_undone': _secure_not_undone}
+# so are F25 (secure_stale_login) and F26 (secure_not_undone)
+CLASSES = {'overlapping_globs': _overlapping_globs}
 
 CORPUS = [
     {'timeout': 10, 'ops': [['new'], ['set', 1, ['u1', ['zz!zz@zz'], None, False]], ['auth', 1, 'ab!x@y'], ['lookup', 'ab!x@y'],
@@ -604,13 +593,13 @@ CORPUS = [
     # user set secure from a hostmask that is only identified, not matched by a registered mask: must be refused
     {'timeout': 0, 'ops': [['new'], ['set', 1, ['u1', ['zz!zz@zz'], None, False]], ['cmd', 'q!q@q', ['identify', 'u1', '', 'secret']],
                            ['cmd', 'q!q@q', ['secure', '', 'True', 'secret']], ['lookup', 'q!q@q'], ['lookup', 'zz!zz@zz']]},
-    # F25: secure turned on from a matching hostmask while a login from a foreign hostmask is still there
+    # old witness of F25 (repaired): secure turned on from a matching hostmask while a login from a foreign hostmask is still there
     {'timeout': 0, 'ops': [['new'], ['set', 1, ['u1', ['ab!x@y'], None, False]], ['cmd', 'q!q@q', ['identify', 'u1', '', 'secret']],
                            ['cmd', 'ab!x@y', ['secure', '', 'True', 'secret']], ['lookup', 'q!q@q']]},
-    # F25: the mask a secure account's login relies on is removed
+    # F25 (repaired), second route: the mask a secure account's login relies on is removed
     {'timeout': 0, 'ops': [['new'], ['set', 1, ['u1', ['ab!x@y', 'q!q@q'], None, True]], ['cmd', 'q!q@q', ['identify', 'u1', '', 'secret']],
                            ['cmd', 'ab!x@y', ['remove', 'u1', 'q!q@q', 'secret']], ['lookup', 'q!q@q']]},
-    # F26: set secure refused by setUser keeps the new flag
+    # old witness of F26 (repaired): set secure refused by setUser kept the new flag
     {'timeout': 0, 'ops': [['new'], ['new'], ['set', 1, ['u1', ['ab!x@y', 'zz!zz@zz'], None, False]], ['set', 2, ['u2', [], None, False]],
                            ['auth', 2, 'zz!zz@zz'], ['cmd', 'ab!x@y', ['secure', '', 'True', 'secret']]]},
     # command layer: a refused `hostmask add` (overlap with another account's mask found by setUser) must leave no trace
